@@ -75,6 +75,7 @@ fn real_main(args: Vec<String>) -> i32 {
                 for l in f.lines() {
                     let l = l.trim();
                     if !l.is_empty() && !l.starts_with('#') {
+                        let l = &ops2::normalise_line(l);
                         c.op(l);
                         c.count("corpus_ops");
                     }
